@@ -30,9 +30,14 @@ FirstPat(name) == LET ps == {j \in 1..Len(name) : name[j].k = "p"} IN
                   IF ps = {} THEN {} ELSE {name[CHOOSE j \in ps : \A q \in ps : j <= q].p}
 
 (* ---- well-formed family ---- *)
+(* constraints of #r1: on the first pattern of its own name, and - inheritance as a dimension of its own - on the
+   named pattern x when #r1's own name does NOT contain it ("foreign": the constraint has no effect on #r1 itself
+   and is inherited by a rule that refers to #r1 and has x in its own part of the name).  Such a schema is
+   well-formed only when x occurs in some name (WfFamily keeps the well-formed ones). *)
+ForeignX(name) == IF \E j \in 1..Len(name) : name[j] = P("x") THEN {} ELSE {"x"}
 ConsFor1(name) == {<<>>} \cup UNION {{ << <<C1(p, <<Lit("a")>>)>> >>,                                \* { p: "a" }
                                         << <<C1(p, <<Lit("a")>>)>>, <<C1(p, <<Lit("b")>>)>> >> }       \* { p: "a" } | { p: "b" }
-                                      : p \in FirstPat(name)}
+                                      : p \in FirstPat(name) \cup ForeignX(name)}
 Rule1s == UNION {{Rule("#r1", n, c, <<>>) : c \in ConsFor1(n)} : n \in Seqs12({Lit("a"), P("x"), P("_t")})}
 HasX(r1, name) == \E j \in 1..Len(name) : (name[j].k = "p" /\ name[j].p = "x")
                                           \/ (name[j].k = "r" /\ \E q \in 1..Len(r1.name) : r1.name[q].k = "p" /\ r1.name[q].p = "x")
@@ -53,9 +58,29 @@ RedefSigned(s) == IF Len(s) = 3 /\ s[2].id = "#r1" /\ s[1].sign = <<>>
                   THEN {s, <<[s[1] EXCEPT !.sign = <<"#r3">>], s[2], s[3]>>, <<s[1], [s[2] EXCEPT !.sign = <<"#r3">>], s[3]>>,
                         <<[s[1] EXCEPT !.sign = <<"#r3">>], [s[2] EXCEPT !.sign = <<"#r3">>], s[3]>>}    \* same signers, own bindings
                   ELSE {s}
-WfFamily == UNION {RedefSigned(s) : s \in
+(* ---- chains that share their end: a rule D1 with TWO chains (two alternative constraint sets, or a reference to
+   a rule defined twice), and a second definition / another rule D2 that is written like ONE of these chains, so that
+   it ends where that chain ends; D1 and D2 have signers of their own.  D2's identifier sorts before, with or after
+   D1's, and it is written before or after D1.  (C12: "one of the rules listed as signers in THAT definition") *)
+Alt(p, v) == <<C1(p, <<Lit(v)>>)>>
+SEKeys  == << Rule("#k1", <<Lit("c"), Lit("a"), P("x")>>, <<>>, <<>>), Rule("#k2", <<Lit("c"), Lit("b"), P("x")>>, <<>>, <<>>) >>
+SENames == {<<P("x")>>, <<Lit("c"), P("x")>>, <<P("x"), P("y")>>}
+SEIds   == {"#r0", "#r1", "#r2"}
+BothOrders(d1, d2, rest) == {<<d1, d2>> \o rest, <<d2, d1>> \o rest}
+SharedEnd ==
+  UNION {UNION {BothOrders(Rule("#r1", n, <<Alt("x", "a"), Alt("x", "b")>>, <<"#k1">>),
+                           Rule(id2, n, <<Alt("x", v)>>, <<"#k2">>), SEKeys)
+                : id2 \in SEIds, v \in {"a", "b"}} : n \in SENames}
+  \cup
+  UNION {BothOrders(Rule("#r1", <<R("#m"), P("x")>>, <<>>, <<"#k1">>), Rule(id2, <<Lit(v), P("x")>>, <<>>, <<"#k2">>),
+                    << Rule("#m", <<Lit("a")>>, <<>>, <<>>), Rule("#m", <<Lit("b")>>, <<>>, <<>>) >> \o SEKeys)
+         : id2 \in SEIds, v \in {"a", "b"}}
+
+WfFamily == {s \in UNION {RedefSigned(s) : s \in
               UNION {UNION {UNION {{pr \o r3 : r3 \in Rule3s(r2)} : pr \in Signed(r1, r2)}
                             : r2 \in Rule2New(r1) \cup Rule2Redef} : r1 \in Rule1s}}
+             : WellFormed([rules |-> s])}
+            \cup SharedEnd
 
 (* ---- possibly ill-formed family ---- *)
 BadNames == {<<i>> : i \in {Lit("a"), P("x"), R("#r1"), R("#r2"), R("#_k"), R("#zz")}}
@@ -66,7 +91,14 @@ BadCons == {<<>>, << <<C1("x", <<Lit("a")>>)>> >>, << <<C1("y", <<Lit("a")>>)>> 
 BadSign == {<<>>, <<"#r1">>, <<"#r2">>, <<"#zz">>, <<"#_k">>}
 BadRule2 == UNION {{Rule(id, n, <<>>, s) : n \in {<<Lit("b")>>, <<R("#r1")>>, <<P("y")>>}, s \in {<<>>, <<"#r1">>}}
                    : id \in {"#r2", "#_k"}}
+(* the error in a SECOND definition of a rule: #r1 is written twice with the same name (both definitions end on one
+   node of the tree unless the name has a temporary pattern), the first definition is unsigned or signed by #r2, the
+   second has any of the signer lists - a cycle through it, an undefined signer, a temporary rule as signer *)
+TwinNames == {<<Lit("a")>>, <<P("x")>>, <<Lit("a"), P("x")>>, <<Lit("a"), P("_t")>>}
+TwinBad == {<<Rule("#r1", n, <<>>, s1), Rule("#r1", n, <<>>, s2), r2>>
+            : n \in TwinNames, s1 \in {<<>>, <<"#r2">>}, s2 \in BadSign, r2 \in BadRule2}
 BadFamily == {<<Rule("#r1", n, c, s), r2>> : n \in BadNames, c \in BadCons, s \in BadSign, r2 \in BadRule2}
+             \cup TwinBad
 
 Family == IF Mode \in {"schemas", "checks", "laws"} THEN SetToSeq(WfFamily) ELSE IF Mode = "illformed" THEN SetToSeq(BadFamily) ELSE <<>>
 Count  == IF Mode = "trees" THEN Len(TreeList) ELSE Len(Family)
@@ -77,9 +109,22 @@ Focus(s)   == Len(s) = 3 /\ s[2].id = "#r1" /\
               \/ (HasTemp(s[1]) /\ HasTemp(s[2]) /\ Len(s[1].cons) > 0 /\ Len(s[2].cons) > 0)
               \/ (s[1].sign # s[2].sign /\ s[1].name = s[2].name)
 Focus2(s)  == Len(s) = 3 /\ s[2].id = "#r2" /\ s[3].name = <<R("#r2"), R("#r1")>> /\ HasTemp(s[1]) /\ Len(s[1].cons) > 0
+(* a constraint of #r1 on a pattern its own name does not have, inherited by #r2 which refers to #r1 and has the pattern *)
+HasItem(r, it) == \E j \in 1..Len(r.name) : r.name[j] = it
+Focus3(s)  == Len(s) >= 2 /\ Len(s[1].cons) > 0 /\ s[1].cons[1][1].pat = "x" /\ ~HasItem(s[1], P("x"))
+              /\ s[2].id = "#r2" /\ HasItem(s[2], R("#r1")) /\ HasItem(s[2], P("x"))
+Focus4(s)  == Len(s) >= 4                                  \* SharedEnd
+FocusBad(s) == Len(s) = 3                                  \* TwinBad
+(* focus shapes are sampled every (FocusStride * weight)-th; weight 0: not a focus shape *)
+FocusW(s)  == IF Mode \in {"schemas", "checks"}
+              THEN (IF Focus(s) \/ Focus2(s) \/ Focus4(s) THEN 1 ELSE IF Focus3(s) THEN 4 ELSE 0)
+              ELSE IF Mode = "illformed" THEN (IF FocusBad(s) THEN 1 ELSE 0)
+              ELSE 0
 Picked == {i \in 1..Count : i % Stride = Offset % Stride}
-          \cup (IF Mode \in {"schemas", "checks"}
-                THEN {i \in 1..Count : (Focus(Family[i]) \/ Focus2(Family[i])) /\ i % FocusStride = FocusOffset % FocusStride} ELSE {})
+          \cup (IF Mode \in {"schemas", "checks", "illformed"}
+                THEN {i \in 1..Count : LET w == FocusW(Family[i]) IN
+                                       w > 0 /\ i % (FocusStride * w) = FocusOffset % (FocusStride * w)}
+                ELSE {})
 
 ExpSchema(i) == LET S == [rules |-> Family[i]]  CH == AllChains(S) IN
   <<"E", i, S.rules,
